@@ -5,7 +5,8 @@
 //	<id> <op> <args...> | <go result> | <features>
 //
 // Step-level ops (add, size, wm) exercise writeBatch / partitionWriter through
-// the hooks of /repo/verif_export_writer.go; prr and pr drive the response
+// the hooks of /repo/verif_export_writer.go; cfgd checks the defaulting of the
+// Writer options (VerifWriterEffective of verif_export_writer2.go); prr and pr drive the response
 // mapping of (*kafka.Client).Produce through a scripted RoundTripper; e2e runs the real kafka.Writer on
 // the fake cluster of kverif/fakert and prints the globally sequenced history;
 // f3 replays the Close / WriteMessages race.  All numbers are lowercase hex.
@@ -275,7 +276,40 @@ type plan struct {
 	metaAt       int
 	metaCode     int
 	feat         map[string]bool
+
+	// Options LEFT AT THEIR ZERO VALUE in the Writer (the documented default
+	// applies; batchSize / batchBytes / maxAttempts / batchTimeout above then
+	// hold that default for the generator's own use).
+	zBatchSize    bool
+	zBatchBytes   bool
+	zMaxAttempts  bool
+	zBatchTimeout bool
+	zBackoff      bool
+	zReadTimeout  bool
+	zWriteTimeout bool
+	balancerNil   bool // default round-robin balancer
+	acks          kafka.RequiredAcks
+	newWriter     bool // built with kafka.NewWriter(WriterConfig) instead of a literal
+	sizeBB        int  // the limit message sizes are drawn around (= batchBytes unless that is the default)
+	bigLeft       int  // near-1MiB messages still allowed in this scenario
+
+	// effective configuration read from the scenario's Writer (VerifWriterEffective)
+	effSet                  bool
+	effBS, effBB, effMaxAtt int
 }
+
+const (
+	defaultBatchSize   = 100
+	defaultBatchBytes  = 1048576
+	defaultMaxAttempts = 10
+	bigThreshold       = 4096 // targets above this use the shared zero slab + vid header
+)
+
+// slab backs the values of all big messages (never written to).
+var slab = make([]byte, defaultBatchBytes+8192)
+
+// budgets of slow defaults per run (plans are generated sequentially)
+var budgetTimeout, budgetBackoff = 8, 8
 
 // Kafka codes are kept in the encoded form of fakert.Enc (negative codes as
 // 65536+c); none of them may fall into the transport range 1001..1099.
@@ -459,8 +493,12 @@ func (p *plan) decorate(r *rand.Rand, m *planMsg, target int, tm time.Time, idIn
 	}
 	idb := make([]byte, 8)
 	binary.BigEndian.PutUint64(idb, m.id)
-	vid := !idInValue && r.Intn(10) == 0
-	if vid { // id in header "vid", value nil / empty / shorter than 8 bytes
+	big := target > bigThreshold
+	vid := big || (!idInValue && r.Intn(10) == 0)
+	if big { // id in header "vid", value = a slice of the shared zero slab
+		km.Value = slab[:0]
+		km.Headers = append(km.Headers, kafka.Header{Key: fakert.VidHeader, Value: idb})
+	} else if vid { // id in header "vid", value nil / empty / shorter than 8 bytes
 		switch r.Intn(3) {
 		case 0:
 			km.Value = nil
@@ -476,7 +514,7 @@ func (p *plan) decorate(r *rand.Rand, m *planMsg, target int, tm time.Time, idIn
 	}
 	size := func() int { return int(kafka.VerifTotalSize(km)) }
 	limit := target
-	if vid || (size() <= p.batchBytes && target <= p.batchBytes && r.Intn(2) == 0) {
+	if (vid && !big) || (size() <= p.batchBytes && target <= p.batchBytes && r.Intn(2) == 0) {
 		limit = p.batchBytes // any size that fits a batch will do
 	}
 	if size() > limit { // too big with its decoration: drop headers, then the long key
@@ -493,6 +531,9 @@ func (p *plan) decorate(r *rand.Rand, m *planMsg, target int, tm time.Time, idIn
 		km.Value = make([]byte, 8+target-size())
 		copy(km.Value, idb)
 	}
+	if big {
+		km.Value = slab[:target-size()]
+	}
 	m.size = size()
 	m.msg = km
 	f := p.feat
@@ -507,7 +548,9 @@ func (p *plan) decorate(r *rand.Rand, m *planMsg, target int, tm time.Time, idIn
 	case len(km.Key) > 1:
 		f["key-long"] = true
 	}
-	if vid {
+	if big {
+		f["value-big"] = true
+	} else if vid {
 		f["value-short"] = true
 	}
 	if km.Offset != 0 || km.Partition != 0 {
@@ -545,6 +588,31 @@ func genPlan(r *rand.Rand) *plan {
 		p.batchBytes = 60 + r.Intn(1941)
 	}
 	p.maxAttempts = 1 + r.Intn(4)
+	p.sizeBB = p.batchBytes
+	if r.Intn(4) == 0 {
+		p.zBatchSize, p.batchSize = true, defaultBatchSize
+	}
+	if r.Intn(4) == 0 {
+		p.zBatchBytes, p.batchBytes = true, defaultBatchBytes
+		p.bigLeft = 6
+	}
+	if r.Intn(4) == 0 {
+		p.zMaxAttempts, p.maxAttempts = true, defaultMaxAttempts
+	}
+	p.zReadTimeout = r.Intn(4) == 0
+	p.zWriteTimeout = r.Intn(4) == 0
+	p.newWriter = r.Intn(5) == 0
+	switch r.Intn(4) {
+	case 0:
+		p.acks = kafka.RequireNone // the zero value of a Writer literal
+		if p.newWriter {
+			p.acks = kafka.RequireAll // NewWriter turns 0 into RequireAll
+		}
+	case 1:
+		p.acks = kafka.RequireOne
+	default:
+		p.acks = kafka.RequireAll
+	}
 	p.backoffMin = time.Millisecond
 	p.backoffMax = time.Duration(1+r.Intn(2)) * time.Millisecond
 	p.wtopic = -1
@@ -595,8 +663,16 @@ func genPlan(r *rand.Rand) *plan {
 			} else {
 				m.part = r.Intn(p.topics[t])
 			}
-			targets[i] = pickSize(r, p.batchBytes)
+			targets[i] = pickSize(r, p.sizeBB)
 			c.msgs = append(c.msgs, m)
+		}
+		if p.zBatchBytes && n > 0 && p.bigLeft > 0 && r.Intn(5) == 0 { // sizes around the default limit
+			bb := defaultBatchBytes
+			targets[r.Intn(n)] = []int{bb, bb - 1, bb - 23, 600000, bb / 2, bb/2 + 1}[r.Intn(6)]
+			p.bigLeft--
+			if n > 1 && r.Intn(2) == 0 {
+				targets[r.Intn(n)] = []int{bb, bb - 1, 600000, bb / 2}[r.Intn(4)]
+			}
 		}
 		large := -1
 		if n > 0 && r.Intn(12) == 0 { // one byte over BatchBytes: first / middle / last
@@ -669,7 +745,7 @@ func genPlan(r *rand.Rand) *plan {
 				var re fakert.Reaction
 				for {
 					re = genReaction(r, true)
-					if retriable(re.Code) {
+					if retriable(re.Code) && !(p.acks == kafka.RequireNone && re.Kind == fakert.RejectedCode) {
 						break
 					}
 				}
@@ -685,8 +761,45 @@ func genPlan(r *rand.Rand) *plan {
 					script = append(script, genReaction(r, false))
 				}
 			}
+			if p.acks == kafka.RequireNone {
+				// Client.Produce ignores the response without acks: a broker
+				// error code would never be seen, script transport errors only
+				for i := range script {
+					if script[i].Kind == fakert.RejectedCode {
+						script[i].Kind, script[i].Code = fakert.AppliedAcked, 0
+					}
+				}
+			}
 			p.faults[fakert.TP{Topic: fmt.Sprintf("t%d", t), Partition: pt}] = script
 		}
+	}
+
+	// slow defaults, within their budgets
+	failures := 0 // the largest number of failing reactions in one script
+	for _, sc := range p.faults {
+		n := 0
+		for _, re := range sc {
+			if re.Kind != fakert.AppliedAcked {
+				n++
+			}
+		}
+		if n > failures {
+			failures = n
+		}
+	}
+	if failures <= 1 && budgetBackoff > 0 && r.Intn(3) == 0 {
+		p.zBackoff = true // 100 ms / 1 s: at most one retry per partition
+		p.backoffMin, p.backoffMax = 100*time.Millisecond, time.Second
+		budgetBackoff--
+	}
+	switch {
+	case p.det && p.async && !p.zBackoff && r.Intn(4) == 0:
+		p.zBatchTimeout = true // Close flushes long before the default second
+		p.batchTimeout = time.Second
+	case p.det && !p.async && len(p.callers[0]) == 1 && budgetTimeout > 0 && r.Intn(2) == 0:
+		p.zBatchTimeout = true // one call waits at most one second
+		p.batchTimeout = time.Second
+		budgetTimeout--
 	}
 	if r.Intn(10) == 0 {
 		p.metaAt = 1 + r.Intn(20)
@@ -696,7 +809,45 @@ func genPlan(r *rand.Rand) *plan {
 			p.metaCode = netCodes[r.Intn(len(netCodes))]
 		}
 	}
+	if ncallers == 1 && !p.closeRace && r.Intn(4) == 0 {
+		p.balancerNil = true
+		p.roundRobinParts()
+	}
 	return p
+}
+
+// roundRobinParts rewrites the partitions of the C events for the default
+// balancer: the RoundRobin of one writer answers partitions[counter % n] and
+// increments its counter on every Balance call, which WriteMessages makes per
+// message in order, after the too-large scan of the whole call, the topic
+// choice and the metadata lookup of that message (each of which ends the call).
+// Only valid for one caller whose calls all pass enter().
+func (p *plan) roundRobinParts() {
+	counter, meta := 0, 0
+	for ci := range p.callers[0] {
+		c := &p.callers[0][ci]
+		large := false
+		for _, m := range c.msgs {
+			if m.size > p.batchBytes {
+				large = true
+			}
+		}
+		if large {
+			continue
+		}
+		for i := range c.msgs {
+			t := p.effTopic(c.msgs[i])
+			if t < 0 {
+				break
+			}
+			meta++
+			if meta == p.metaAt {
+				break
+			}
+			c.msgs[i].part = counter % p.topics[t]
+			counter++
+		}
+	}
 }
 
 // effTopic is the topic a message is routed to, or -1 when the writer rejects
@@ -739,7 +890,11 @@ func (p *plan) cfg() string {
 	if p.wtopic >= 0 {
 		wt = hx(p.wtopic)
 	}
-	return fmt.Sprintf("cfg=%s,%s,%s,%s,%s,%s,%s", hx(p.batchSize), hx(p.batchBytes), hx(p.maxAttempts),
+	bs, bb, ma := p.batchSize, p.batchBytes, p.maxAttempts
+	if p.effSet { // what the scenario's Writer really works with
+		bs, bb, ma = p.effBS, p.effBB, p.effMaxAtt
+	}
+	return fmt.Sprintf("cfg=%s,%s,%s,%s,%s,%s,%s", hx(bs), hx(bb), hx(ma),
 		kvfmt.Bool(p.async), wt, rs, kvfmt.Bool(p.det))
 }
 
@@ -763,6 +918,15 @@ func (p *plan) planFeatures() {
 	if len(p.afterClose) > 0 {
 		f["after-close"] = true
 	}
+	for tag, on := range map[string]bool{
+		"default-batchsize": p.zBatchSize, "default-batchbytes": p.zBatchBytes, "default-maxattempts": p.zMaxAttempts,
+		"default-batchtimeout": p.zBatchTimeout, "default-backoff": p.zBackoff, "balancer-nil": p.balancerNil, "newwriter": p.newWriter,
+	} {
+		if on {
+			f[tag] = true
+		}
+	}
+	f["acks="+p.acks.String()] = true
 	type bstate struct {
 		size  int
 		bytes int
@@ -1068,6 +1232,88 @@ func (s *scRun) doCall(g int, c *planCall) bool {
 	}
 }
 
+// keyBalancer reads the partition from the first key byte.
+var keyBalancer = kafka.BalancerFunc(func(m kafka.Message, parts ...int) int {
+	if len(m.Key) == 0 || len(parts) == 0 {
+		return 0
+	}
+	return parts[int(m.Key[0])%len(parts)]
+})
+
+// buildWriter constructs the scenario's Writer, leaving at their zero value
+// the options the plan says so; either as a literal or through NewWriter.
+func (p *plan) buildWriter(fake *fakert.Fake) *kafka.Writer {
+	topic := ""
+	if p.wtopic >= 0 {
+		topic = fmt.Sprintf("t%d", p.wtopic)
+	}
+	var bs, ma int
+	var bb int64
+	var bt, bmin, bmax, rt, wt time.Duration
+	if !p.zBatchSize {
+		bs = p.batchSize
+	}
+	if !p.zBatchBytes {
+		bb = int64(p.batchBytes)
+	}
+	if !p.zMaxAttempts {
+		ma = p.maxAttempts
+	}
+	if !p.zBatchTimeout {
+		bt = p.batchTimeout
+	}
+	if !p.zBackoff {
+		bmin, bmax = p.backoffMin, p.backoffMax
+	}
+	if !p.zReadTimeout {
+		rt = 5 * time.Second
+	}
+	if !p.zWriteTimeout {
+		wt = 5 * time.Second
+	}
+	var bal kafka.Balancer
+	if !p.balancerNil {
+		bal = keyBalancer
+	}
+	var w *kafka.Writer
+	if p.newWriter {
+		// NewWriter: RequiredAcks 0 becomes RequireAll, a nil Balancer becomes a
+		// fresh RoundRobin, and a Transport is built from the Dialer (replaced
+		// by the fake below; the private one is only closed by Close).
+		w = kafka.NewWriter(kafka.WriterConfig{
+			Brokers:      []string{"fake:9092"},
+			Topic:        topic,
+			Balancer:     bal,
+			MaxAttempts:  ma,
+			BatchSize:    bs,
+			BatchBytes:   int(bb),
+			BatchTimeout: bt,
+			ReadTimeout:  rt,
+			WriteTimeout: wt,
+			RequiredAcks: int(p.acks),
+			Async:        p.async,
+		})
+		w.Transport = fake
+	} else {
+		w = &kafka.Writer{
+			Addr:         kafka.TCP("fake:9092"),
+			Topic:        topic,
+			Balancer:     bal,
+			Transport:    fake,
+			MaxAttempts:  ma,
+			BatchSize:    bs,
+			BatchBytes:   bb,
+			BatchTimeout: bt,
+			ReadTimeout:  rt,
+			WriteTimeout: wt,
+			RequiredAcks: p.acks,
+			Async:        p.async,
+		}
+	}
+	w.WriteBackoffMin, w.WriteBackoffMax = bmin, bmax
+	return w
+}
+
 func runScenario(p *plan, release func()) line {
 	hist := fakert.NewHistory()
 	fake := fakert.New(hist, p.topics)
@@ -1089,38 +1335,20 @@ func runScenario(p *plan, release func()) line {
 	}
 	fake.SetExpected(expected)
 
-	w := &kafka.Writer{
-		Addr:            kafka.TCP("fake:9092"),
-		Transport:       fake,
-		MaxAttempts:     p.maxAttempts,
-		WriteBackoffMin: p.backoffMin,
-		WriteBackoffMax: p.backoffMax,
-		BatchSize:       p.batchSize,
-		BatchBytes:      int64(p.batchBytes),
-		BatchTimeout:    p.batchTimeout,
-		RequiredAcks:    kafka.RequireAll,
-		Async:           p.async,
-		Balancer: kafka.BalancerFunc(func(m kafka.Message, parts ...int) int {
-			if len(m.Key) == 0 || len(parts) == 0 {
-				return 0
-			}
-			return parts[int(m.Key[0])%len(parts)]
-		}),
-		Completion: func(msgs []kafka.Message, err error) {
-			o := "-"
-			if err != nil {
-				o = hx(fakert.Classify(err))
-			}
-			ids := msgIDs(msgs)
-			hist.Do(func(int) string { return fmt.Sprintf("K%s:%s", o, ids) })
-			if err == nil {
-				s.checkCompletion(msgs)
-			}
-		},
+	w := p.buildWriter(fake)
+	w.Completion = func(msgs []kafka.Message, err error) {
+		o := "-"
+		if err != nil {
+			o = hx(fakert.Classify(err))
+		}
+		ids := msgIDs(msgs)
+		hist.Do(func(int) string { return fmt.Sprintf("K%s:%s", o, ids) })
+		if err == nil && p.acks != kafka.RequireNone { // without acks the writer gets no offsets
+			s.checkCompletion(msgs)
+		}
 	}
-	if p.wtopic >= 0 {
-		w.Topic = fmt.Sprintf("t%d", p.wtopic)
-	}
+	ebs, ebb, ema, _, _, _, _, _ := kafka.VerifWriterEffective(w)
+	p.effBS, p.effBB, p.effMaxAtt, p.effSet = ebs, int(ebb), ema, true
 	s.w = w
 
 	var wg sync.WaitGroup
@@ -1280,6 +1508,7 @@ func boundaryPlans() []*plan {
 			for _, pos := range []string{"first", "retry", "last"} {
 				p := &plan{feat: map[string]bool{}, faults: map[fakert.TP][]fakert.Reaction{}}
 				p.topics = []int{1}
+				p.acks = kafka.RequireAll
 				p.batchSize = 3
 				p.batchBytes = 1000
 				p.maxAttempts = 3
@@ -1329,6 +1558,7 @@ func timeOrderPlans() []*plan {
 			for _, twice := range []bool{false, true} {
 				p := &plan{feat: map[string]bool{}, faults: map[fakert.TP][]fakert.Reaction{}}
 				p.topics = []int{1}
+				p.acks = kafka.RequireAll
 				p.batchSize = 4
 				p.batchBytes = 1000
 				p.maxAttempts = 3
@@ -1368,6 +1598,130 @@ func timeOrderPlans() []*plan {
 		}
 	}
 	return plans
+}
+
+// defaultBatchBytesPlans builds the fixed family on the default BatchBytes
+// (the field is LEFT AT ZERO, so the limit is the documented 1048576): sizes
+// exactly at and just below the limit are accepted, sizes above it make the
+// whole call fail with toolarge.<i> and nothing of it is sent, and two
+// messages of 600000 bytes go to two requests. One caller, one partition,
+// BatchSize 3, sync and async. The big values are slices of the shared slab.
+func defaultBatchBytesPlans() []*plan {
+	const bb = defaultBatchBytes
+	type callSpec []int // total sizes; 0 = a small message
+	families := []struct {
+		name  string
+		calls []callSpec
+	}{
+		{"exact", []callSpec{{0, bb, 0}}},
+		{"minus1", []callSpec{{0, bb - 1, 0}}},
+		{"minus23", []callSpec{{0, bb - 23, 0}}},
+		{"over-first", []callSpec{{bb + 1, 0, 0}, {bb + 2, 0, 0}, {bb + 4096, 0, 0}, {0}}},
+		{"over-middle", []callSpec{{0, bb + 1, 0}, {0, bb + 2, 0}, {0, bb + 4096, 0}, {0}}},
+		{"over-last", []callSpec{{0, 0, bb + 1}, {0, 0, bb + 2}, {0, 0, bb + 4096}, {0}}},
+		{"two-600k", []callSpec{{600000, 600000}}},
+	}
+	var plans []*plan
+	for _, fam := range families {
+		for _, async := range []bool{false, true} {
+			p := &plan{feat: map[string]bool{}, faults: map[fakert.TP][]fakert.Reaction{}}
+			p.topics = []int{1}
+			p.acks = kafka.RequireAll
+			p.batchSize = 3
+			p.zBatchBytes, p.batchBytes = true, bb
+			p.maxAttempts = 3
+			p.async = async
+			p.wtopic = 0
+			p.det = true
+			p.batchTimeout = 200 * time.Millisecond
+			if async {
+				p.batchTimeout = time.Hour
+			}
+			p.backoffMin = time.Millisecond
+			p.backoffMax = time.Millisecond
+			id := uint64(0)
+			var calls []planCall
+			for _, spec := range fam.calls {
+				var c planCall
+				c.times = "zero"
+				for _, size := range spec {
+					id++
+					if size == 0 {
+						c.msgs = append(c.msgs, plainMsg(id, time.Time{}))
+						continue
+					}
+					idb := make([]byte, 8)
+					binary.BigEndian.PutUint64(idb, id)
+					km := kafka.Message{Key: []byte{0}, Value: slab[:0], Headers: []kafka.Header{{Key: fakert.VidHeader, Value: idb}}}
+					km.Value = slab[:size-int(kafka.VerifTotalSize(km))]
+					c.msgs = append(c.msgs, planMsg{id: id, topic: -1, part: 0, size: int(kafka.VerifTotalSize(km)), msg: km})
+				}
+				calls = append(calls, c)
+			}
+			p.callers = [][]planCall{calls}
+			p.planFeatures()
+			p.feat["value-big"] = true
+			p.feat["big="+fam.name] = true
+			plans = append(plans, p)
+		}
+	}
+	return plans
+}
+
+// ---------------------------------------------------------------------------
+// step level: defaulting of the Writer options (op cfgd)
+
+// genCfgd: raw field values -> the effective values of VerifWriterEffective
+// (durations in ms).
+func genCfgd(r *rand.Rand, allZero bool) line {
+	pick := func(max int64) int64 {
+		if allZero {
+			return 0
+		}
+		switch r.Intn(8) {
+		case 0, 1:
+			return 0
+		case 2:
+			return -1
+		case 3:
+			return -1 - r.Int63n(max)
+		case 4:
+			return 1
+		default:
+			return 1 + r.Int63n(max)
+		}
+	}
+	v := []int64{pick(100000), pick(1 << 40), pick(1000), pick(1000000), pick(1000000), pick(1000000), pick(1000000), pick(1000000)}
+	ms := func(x int64) time.Duration { return time.Duration(x) * time.Millisecond }
+	w := &kafka.Writer{
+		BatchSize:       int(v[0]),
+		BatchBytes:      v[1],
+		MaxAttempts:     int(v[2]),
+		BatchTimeout:    ms(v[3]),
+		WriteBackoffMin: ms(v[4]),
+		WriteBackoffMax: ms(v[5]),
+		ReadTimeout:     ms(v[6]),
+		WriteTimeout:    ms(v[7]),
+	}
+	bs, bb, ma, bt, bmin, bmax, rt, wt := kafka.VerifWriterEffective(w)
+	eff := []int64{int64(bs), bb, int64(ma), int64(bt / time.Millisecond), int64(bmin / time.Millisecond),
+		int64(bmax / time.Millisecond), int64(rt / time.Millisecond), int64(wt / time.Millisecond)}
+	args, res := make([]string, 8), make([]string, 8)
+	zeros, neg := 0, false
+	for i := range v {
+		args[i], res[i] = kvfmt.I(v[i]), kvfmt.I(eff[i])
+		if v[i] == 0 {
+			zeros++
+		}
+		if v[i] < 0 {
+			neg = true
+		}
+	}
+	feat := map[string]bool{fmt.Sprintf("zero-fields=%d", zeros): true}
+	if neg {
+		feat["negative"] = true
+	}
+	return line{"cfgd", strings.Join(args, " "), strings.Join(res, ":"), kvfmt.Set(feat)}
 }
 
 // ---------------------------------------------------------------------------
@@ -1695,6 +2049,11 @@ func main() {
 		lines = append(lines, genPR(r))
 	}
 
+	lines = append(lines, genCfgd(r, true))
+	for i := 0; i < 150; i++ {
+		lines = append(lines, genCfgd(r, false))
+	}
+
 	// e2e: all plans come from the one PRNG first, then run concurrently; the
 	// fixed boundary-code scenarios follow the generated ones.
 	plans := make([]*plan, *count)
@@ -1704,6 +2063,7 @@ func main() {
 	}
 	plans = append(plans, boundaryPlans()...)
 	plans = append(plans, timeOrderPlans()...)
+	plans = append(plans, defaultBatchBytesPlans()...)
 	results := make([]line, len(plans))
 	sem := make(chan struct{}, *jobs)
 	var wg sync.WaitGroup
@@ -1722,6 +2082,7 @@ func main() {
 	}
 	wg.Wait()
 	lines = append(lines, results...)
+	lines = append(lines, wireLines(*seed)...)
 	lines = append(lines, runF3())
 
 	for i, l := range lines {
